@@ -170,10 +170,13 @@ def c_q(q):
 def harness_violation(case, r):
     if r.get("panic"):
         return "panic: " + r["panic"]
-    if r.get("hang"):
-        k = len(r.get("steps") or [])
-        return ("hang: op #%d (%s) or the traversals after it did not return within the watchdog "
-                "(unbounded recursion of retrieveDescendants)" % (k - 1, case["ops"][k - 1]["op"] if k else "?"))
+    if r.get("hang") or r.get("crash"):
+        k = r.get("at", -1)
+        o = case["ops"][k]["op"] if 0 <= k < len(case["ops"]) else "?"
+        where = ("the traversals after op #%d (%s, returned %s)" % (k, o, r.get("at_err"))) if r.get("at_err") \
+            else ("op #%d (%s)" % (k, o))
+        return ("%s: %s did not return (unbounded recursion of retrieveDescendants on a cyclic graph)"
+                % ("hang" if r.get("hang") else "crash: " + r["crash"], where))
     for s in r.get("steps") or []:
         if s["err"] not in ERR:
             return "unexpected error from a writer call: " + s["err"][:200]
